@@ -20,10 +20,10 @@ import (
 type sinkKind string
 
 const (
-	sinkStore    sinkKind = "store"        // store / map update / copy / delete through the reference
-	sinkEscape   sinkKind = "escape"       // reference stored into the heap, captured, sent, returned
-	sinkCallee   sinkKind = "callee-write" // passed to a callee that writes through it
-	sinkUnknown  sinkKind = "unknown-call" // passed to a callee that cannot be summarised
+	sinkStore   sinkKind = "store"        // store / map update / copy / delete through the reference
+	sinkEscape  sinkKind = "escape"       // reference stored into the heap, captured, sent, returned
+	sinkCallee  sinkKind = "callee-write" // passed to a callee that writes through it
+	sinkUnknown sinkKind = "unknown-call" // passed to a callee that cannot be summarised
 )
 
 type sink struct {
@@ -100,7 +100,7 @@ func externalReadOnly(name string) bool {
 // run propagates taint from seeds inside fn and returns the sinks.
 func (ta *taintAnalysis) run(fn *ssa.Function, seeds []ssa.Value) []sink {
 	tainted := map[ssa.Value]ssa.Value{} // value -> originating seed
-	holder := map[ssa.Value]bool{}        // addresses inside a non-escaping local that merely holds a shared reference
+	holder := map[ssa.Value]bool{}       // addresses inside a non-escaping local that merely holds a shared reference
 	var work []ssa.Value
 	add := func(v, seed ssa.Value) {
 		if _, ok := tainted[v]; !ok {
